@@ -7,7 +7,7 @@ CONSTANTS
   BackSets = {"none", "pro", "epi", "both", "two", "mixed", "comment", "other"}
   Collisions = {"none", "duptype", "typeenum", "externdef", "uservft", "uservft1"}
   Ptrs = {4, 8}
-  InDirs = {"plain", "dot", "trailing"}
+  InDirs = {"plain", "dot", "trailing", "script"}
 INVARIANTS Replay
 CHECK_DEADLOCK FALSE
 VIEW View
